@@ -16,13 +16,14 @@ CELLS = {
                 ("007", U, None), ("9223372036854775808", U, None)],
     "Number": [("3.14", V, 3.14), ("1e5", V, 100000.0), ("42", V, 42.0), ("-0.5", V, -0.5), ("0", V, 0.0), ("2.50", V, 2.5), ("abc", I, None), ("1,5", I, None),
                ("1.2.3", I, None), ("1e", I, None), ("--1", I, None), (".5", U, None), ("5.", U, None), ("inf", U, None), ("nan", U, None), ("0x10", U, None),
-               (" 1.5", U, None), ("+1.5", U, None), ("1E5", U, None)],
+               (" 1.5", U, None), ("+1.5", U, None), ("1E5", U, None), ("2.675", V, 2.675), ("0.1", V, 0.1), ("1.23456789015", V, None), ("1234.000000125", V, None)],
     "Boolean": [("true", V, True), ("false", V, False), ("True", V, True), ("FALSE", V, False), ("TRUE", V, True), ("1", V, True), ("0", V, False),
                 ("yes", I, None), ("2", I, None), ("abc", I, None), ("t", I, None), ("-1", I, None), ("1.0", U, None), ("0.0", U, None), (" true", U, None)],
     "Date": [("2020-01-15", V, "2020-01-15"), ("2020-02-29", V, "2020-02-29"), ("1800-01-01", V, "1800-01-01"), ("9999-12-31", V, "9999-12-31"),
              ("2020-01-15 10:30:00", V, "2020-01-15T10:30:00"), ("2020-01-15T10:30:00", V, "2020-01-15T10:30:00"), ("2020-01-15T10:30:00Z", V, "2020-01-15T10:30:00"),
              ("2020-01-15T10:30:00+02:00", V, "2020-01-15T10:30:00"), ("2020-13-01", I, None), ("2021-02-29", I, None), ("2020-04-31", I, None), ("2020-01-15T10:30", I, None),
              ("2020-01-15 25:00:00", I, None), ("15/01/2020", I, None), ("20200115", I, None), ("1799-12-31", I, None), ("10000-01-01", I, None), ("abc", I, None),
+             ("2021-2-29", I, None), ("2020-4-31", I, None), ("1900-02-29", I, None), ("2000-02-29", V, "2000-02-29"),
              ("2020-1-5", U, None), ("2020-01-15X10:30:00", I, None), ("2020-01-15T10:30:00.123456", U, None), ("2020-01-15 00:00:00", U, None), ("2020-01", U, None)],
     "Time_Period": [("2020", V, "2020"), ("2020A", V, "2020"), ("2020-A1", V, "2020"), ("2020S1", V, "2020S1"), ("2020-S2", V, "2020S2"), ("2020Q1", V, "2020Q1"),
                     ("2020-Q4", V, "2020Q4"), ("2020M1", V, "2020M1"), ("2020M01", V, "2020M1"), ("2020-01", V, "2020M1"), ("2020-1", V, "2020M1"),
@@ -31,6 +32,7 @@ CELLS = {
                     ("2020D366", V, "2020D366"), ("2020-01-01", V, "2020D1"), ("2020-12-31", V, "2020D366"), ("1800", V, "1800"), ("9999", V, "9999"),
                     ("2020-M13", I, None), ("2020M13", I, None), ("2020M0", I, None), ("2020-13", I, None), ("2020-Q5", I, None), ("2020Q0", I, None), ("2020-S3", I, None),
                     ("2020W54", I, None), ("2020-W54", I, None), ("2020W0", I, None), ("2021D366", I, None), ("2020D367", I, None), ("2020D0", I, None),
+                    ("1900D366", I, None), ("2100-D366", I, None), ("1900-02-29", I, None), ("2000D366", V, "2000D366"), ("2400D366", V, "2400D366"), ("2000-02-29", V, "2000D60"),
                     ("2021-02-29", I, None), ("1799", I, None), ("10000", I, None), ("1799Q1", I, None), ("abc", I, None), ("2020X1", I, None), ("20", I, None),
                     ("2021W53", U, None), ("2020-W1", U, None), ("2020-D1", U, None), ("2020-D001", U, None), ("2020-Q01", U, None), ("2020Q01", U, None), ("2020 Q1", U, None),
                     ("2020q1", U, None), ("2020-A", U, None), ("2020A1", U, None)],
@@ -63,8 +65,22 @@ def make_table(rng, force_valid=None):
         cells.append(rng.choice(valid_pool))
     viol = []
     if not want:
-        kind = rng.choice(["cell", "cell", "cell", "unspecified-cell", "dup", "nullid", "missing-id-col", "missing-nonnull-col", "null-in-nonnull"])
-        if kind == "cell":
+        kind = rng.choice(["cell", "cell", "cell", "unspecified-cell", "dup", "nullid", "missing-id-col", "missing-nonnull-col", "null-in-nonnull", "dup-by-spelling"])
+        if kind == "dup-by-spelling":
+            # the same key written in two documented spellings (only Time_Period has several documented spellings)
+            if t == "Time_Period":
+                role, nullable = "Identifier", False
+                comps[1][2], comps[1][3] = role, False
+                a, b = rng.choice([(("2020M1", V, "2020M1"), ("2020-01", V, "2020M1")), (("2020Q1", V, "2020Q1"), ("2020-Q1", V, "2020Q1")), (("2020M01", V, "2020M1"), ("2020-M1", V, "2020M1")),
+                                   (("2020D1", V, "2020D1"), ("2020-01-01", V, "2020D1")), (("2020", V, "2020"), ("2020A", V, "2020")), (("2020W1", V, "2020W1"), ("2020-W01", V, "2020W1"))])
+                cells = [a, b] + [c for c in cells[2:] if c[2] not in (a[2],)]
+                n = len(cells)
+                viol.append("dup-by-spelling")
+            else:
+                kind = "dup"
+        if kind == "dup-by-spelling":
+            pass
+        elif kind == "cell":
             bad = rng.choice([c for c in pool if c[1] == I] or valid_pool)
             cells[rng.randrange(n)] = bad
             if bad[1] == I:
@@ -96,9 +112,11 @@ def make_table(rng, force_valid=None):
             seen.add(c[0])
             out.append(c)
         cells = out
-        if len({repr(c[2]) for c in cells if c[1] == V and c[2] is not None}) < len([c for c in cells if c[1] == V and c[2] is not None]):
-            viol.append("unspecified-cell")     # same value under two spellings in a key column: duplicate or not is C10's business
+        if "dup-by-spelling" not in viol and len({repr(c[2]) for c in cells if c[1] == V and c[2] is not None}) < len([c for c in cells if c[1] == V and c[2] is not None]):
+            viol.append("unspecified-cell")     # same value under two spellings by accident (distinct Id_1): not a duplicate key
     rows = [[ids[i], cells[i][0]] + ([round(rng.uniform(-5, 5), 2)] if len(comps) > 2 else []) for i in range(n)]
+    if "dup-by-spelling" in viol:
+        rows[1][0] = rows[0][0]
     if "dup" in viol:
         if n < 2:
             rows.append(list(rows[0]))
@@ -117,12 +135,31 @@ def make_table(rng, force_valid=None):
         cells[0] = ("", V, None)
         if t == "String":
             viol = ["unspecified-cell"]       # empty string vs null in a String column is not decided by the docs
+    if role != "Identifier" and n == 1 and not set(viol) - {"invalid-cell", "unspecified-cell"} and rng.random() < 0.5:
+        # dataset without identifiers: a single datapoint, the identifier column is dropped from structure and table
+        comps = comps[1:]
+        rows = [r[1:] for r in rows]
+        return {"type": t, "role": role, "comps": comps, "rows": rows, "cells": [[c[0], c[1], c[2]] for c in cells], "viol": viol, "dwi": True}
     return {"type": t, "role": role, "comps": comps, "rows": rows, "cells": [[c[0], c[1], c[2]] for c in cells], "viol": viol}
+
+
+def cell_sweep():
+    """Deterministic part of the workload: every cell of CELLS once, as the second row of a two-row table (first row valid)."""
+    out = []
+    for t, pool in CELLS.items():
+        first = next(c for c in pool if c[1] == V)
+        for c in pool:
+            if c is first:
+                continue
+            comps = [["Id_1", "Integer", "Identifier", False], ["X", t, "Measure", True]]
+            viol = ["invalid-cell"] if c[1] == I else ["unspecified-cell"] if c[1] == U else []
+            out.append({"type": t, "role": "Measure", "comps": comps, "rows": [[1, first[0]], [2, c[0]]], "cells": [list(first), list(c)], "viol": viol})
+    return out
 
 
 def verdict(case):
     v = case["viol"]
-    if any(x in v for x in ("invalid-cell", "dup", "nullid", "missing-id-col", "missing-nonnull-col", "null-in-nonnull")):
+    if any(x in v for x in ("invalid-cell", "dup", "dup-by-spelling", "nullid", "missing-id-col", "missing-nonnull-col", "null-in-nonnull")):
         return I if "unspecified-cell" not in v else I
     if "unspecified-cell" in v or any(c[1] == U for c in case["cells"]):
         return U
@@ -175,7 +212,7 @@ def materialise(case, form, workdir, tag="t"):
         p = os.path.join(workdir, f"{tag}.parquet")
         df.to_parquet(p, index=False)
         return Path(p)
-    if form in ("df-native", "parquet-native"):
+    if form in ("df-native", "parquet-native", "df-native32"):
         data = {}
         types = {c[0]: c[1] for c in case["comps"]}
         for i, c in enumerate(cols):
@@ -183,9 +220,22 @@ def materialise(case, form, workdir, tag="t"):
             nat = native(types[c], vals)
             if nat is None:
                 return None
+            if form == "df-native32":
+                # narrow numpy dtypes; only for values a float32 / int32 column can hold: its shortest decimal text must be the cell text
+                import numpy as np
+                if types[c] == "Number":
+                    if any(v == "" for v in vals) or any(repr(float(np.float32(float(v)))) != repr(float(v)) and str(np.float32(float(v))) != str(float(v)) for v in vals):
+                        return None
+                    nat = np.array([float(v) for v in vals], dtype="float32")
+                elif types[c] == "Integer":
+                    if any(v == "" or abs(int(v)) >= 2 ** 31 for v in vals):
+                        return None
+                    nat = np.array([int(v) for v in vals], dtype="int32")
             data[c] = nat
         df = pd.DataFrame(data)
-        if form == "df-native":
+        if form == "df-native32" and not any(str(d) in ("float32", "int32") for d in df.dtypes):
+            return None
+        if form in ("df-native", "df-native32"):
             return df
         p = os.path.join(workdir, f"{tag}_n.parquet")
         df.to_parquet(p, index=False)
@@ -232,7 +282,7 @@ def native(t, vals):
     return None
 
 
-FORMS = ["csv", "df-object", "df-string", "parquet-string", "df-native", "parquet-native"]
+FORMS = ["csv", "df-object", "df-string", "parquet-string", "df-native", "parquet-native", "df-native32"]
 
 
 def outcome(fn_status, res, case):
@@ -242,7 +292,7 @@ def outcome(fn_status, res, case):
         ds = res["DS_r"]
         cols = [c for c in ds.components]
         rows = eng.rows_of(ds.data, cols)
-        return ("ok", sorted([tuple(round(x, 9) if isinstance(x, float) else x for x in r) for r in rows], key=repr), cols)
+        return ("ok", sorted([tuple(round(x, 10) if isinstance(x, float) else x for x in r) for r in rows], key=repr), cols)
     name, code, isvtl = eng.exc_info(res)
     if name in ("DataLoadError", "InputValidationException"):
         return ("input-error", name, code)
